@@ -4,33 +4,17 @@ use crate::support::*;
 use core::cmp::Ordering;
 pub mod ty {
     #![deny(warnings)]
-    #![allow(dead_code, unused_imports)]
+    #![allow(dead_code, unused_imports, non_snake_case)]
     use crate::support::{A, B, C, Good, Bad, m_eq, m_cmp, m_pcmp, m_hash, m_fmt, m_clone, m_clone_c, m_into, g_eq, g_cmp, g_pcmp, g_hash, g_fmt};
     use educe::Educe;
-
-    // names at the derive site that shadow everything the generated code might be tempted to write unqualified
-    #[allow(non_camel_case_types)] pub struct Option; pub struct Result; pub struct Ordering; pub struct Clone; pub struct Copy;
-    pub struct Default; pub struct Debug; pub struct PartialEq; pub struct Eq; pub struct PartialOrd; pub struct Ord; pub struct Hash;
-    pub struct Hasher; pub struct Into; pub struct From; pub struct Deref; pub struct DerefMut; pub struct Formatter; pub struct String;
-    pub struct Vec; pub struct Box; pub struct PhantomData; pub struct Sized; pub struct Send; pub struct Iterator; pub struct Self_;
-    #[allow(non_snake_case)] pub fn Some() {} #[allow(non_snake_case)] pub fn None() {} #[allow(non_snake_case)] pub fn Ok() {} #[allow(non_snake_case)] pub fn Err() {}
-    pub fn drop() {} pub mod core {} pub mod std {} pub mod alloc {} pub mod fmt {} pub mod cmp {} pub mod hash {} pub mod clone {} pub mod marker {}
-    #[allow(unused_macros)] macro_rules! stringify { ($($t:tt)*) => { "SHADOWED" } }
-    #[allow(unused_macros)] macro_rules! unreachable { ($($t:tt)*) => { () } }
-    #[allow(unused_macros)] macro_rules! panic { ($($t:tt)*) => { () } }
-    #[allow(unused_macros)] macro_rules! matches { ($($t:tt)*) => { true } }
-    #[allow(unused_macros)] macro_rules! write { ($($t:tt)*) => { () } }
-    #[allow(unused_macros)] macro_rules! format_args { ($($t:tt)*) => { () } }
-    #[allow(unused_macros)] macro_rules! assert { ($($t:tt)*) => { () } }
 #[derive(Educe)]
-#[repr(i64)]
-#[educe(Ord, PartialEq, PartialOrd, Eq)]
-pub enum T { Zed {  } = 255, V1 { other: A<0>, #[educe(Ord(method = m_cmp))] arg: A<0>, #[educe(Ord(method(m_cmp)))] other_data: A<2>, #[educe(Ord(method(m_cmp)))] x: A<3> } = 3, A(#[educe(Ord(method = "m_cmp"))] A<0>) }
+#[educe(Ord, PartialEq, Eq, PartialOrd)]
+pub struct T { #[educe(PartialOrd(method = "m_cmp", rank("-5")))] pub source: A<0>, #[educe(PartialOrd(rank(-6)))] pub _b: A<1>, #[educe(PartialOrd(rank = 0i64))] pub arg: A<0>, pub b: A<0> }
 }
 pub use ty::T;
 
-pub fn values() -> Vec<T> { vec![T::Zed {  }, T::V1 { other: A(0), arg: A(0), other_data: A(1), x: A(7) }, T::V1 { other: A(1), arg: A(0), other_data: A(0), x: A(0) }, T::V1 { other: A(7), arg: A(0), other_data: A(0), x: A(1) }, T::V1 { other: A(7), arg: A(7), other_data: A(1), x: A(1) }, T::V1 { other: A(1), arg: A(7), other_data: A(1), x: A(0) }, T::V1 { other: A(7), arg: A(7), other_data: A(0), x: A(0) }, T::V1 { other: A(0), arg: A(1), other_data: A(0), x: A(0) }, T::V1 { other: A(0), arg: A(0), other_data: A(0), x: A(1) }, T::V1 { other: A(0), arg: A(1), other_data: A(7), x: A(7) }, T::V1 { other: A(1), arg: A(7), other_data: A(7), x: A(7) }, T::V1 { other: A(1), arg: A(0), other_data: A(1), x: A(1) }, T::V1 { other: A(0), arg: A(1), other_data: A(7), x: A(0) }, T::A(A(0)), T::A(A(1)), T::A(A(7))] }
-pub fn show(x: &T) -> String { #[allow(unused_variables)] match x { T::Zed {  } => format!("Zed()"), T::V1 { other: p0, arg: p1, other_data: p2, x: p3 } => format!("V1({},{},{},{})", sv(p0), sv(p1), sv(p2), sv(p3)), T::A(p0) => format!("A({})", sv(p0)) } }
-pub fn o_disc(x: &T) -> i128 { match x { T::Zed {  } => 255, T::V1 { other: _, arg: _, other_data: _, x: _ } => 3, T::A(_) => 4 } }
-pub fn o_cmp(a: &T, b: &T) -> Ordering { match (a, b) { (T::Zed {  }, T::Zed {  }) => {  Ordering::Equal }, (T::V1 { other: a0, arg: a1, other_data: a2, x: a3 }, T::V1 { other: b0, arg: b1, other_data: b2, x: b3 }) => { let c = ::core::cmp::Ord::cmp(a0, b0); if c != Ordering::Equal { return c; } let c = m_cmp(a1, b1); if c != Ordering::Equal { return c; } let c = m_cmp(a2, b2); if c != Ordering::Equal { return c; } let c = m_cmp(a3, b3); if c != Ordering::Equal { return c; } Ordering::Equal }, (T::A(a0), T::A(b0)) => { let c = m_cmp(a0, b0); if c != Ordering::Equal { return c; } Ordering::Equal }, _ => o_disc(a).cmp(&o_disc(b)) } }
+pub fn values() -> Vec<T> { vec![T { source: A(1), _b: A(1), arg: A(1), b: A(7) }, T { source: A(7), _b: A(1), arg: A(7), b: A(0) }, T { source: A(7), _b: A(0), arg: A(0), b: A(1) }, T { source: A(1), _b: A(7), arg: A(0), b: A(1) }, T { source: A(1), _b: A(0), arg: A(0), b: A(1) }, T { source: A(7), _b: A(1), arg: A(7), b: A(1) }, T { source: A(0), _b: A(7), arg: A(0), b: A(0) }, T { source: A(1), _b: A(7), arg: A(1), b: A(0) }, T { source: A(0), _b: A(0), arg: A(0), b: A(0) }, T { source: A(0), _b: A(1), arg: A(1), b: A(7) }, T { source: A(1), _b: A(1), arg: A(7), b: A(7) }, T { source: A(0), _b: A(7), arg: A(1), b: A(0) }, T { source: A(1), _b: A(0), arg: A(7), b: A(7) }, T { source: A(7), _b: A(7), arg: A(7), b: A(1) }, T { source: A(1), _b: A(0), arg: A(1), b: A(1) }, T { source: A(1), _b: A(1), arg: A(0), b: A(1) }, T { source: A(1), _b: A(0), arg: A(0), b: A(7) }, T { source: A(0), _b: A(7), arg: A(1), b: A(7) }, T { source: A(1), _b: A(0), arg: A(0), b: A(0) }, T { source: A(0), _b: A(7), arg: A(7), b: A(7) }, T { source: A(7), _b: A(0), arg: A(1), b: A(0) }, T { source: A(1), _b: A(7), arg: A(7), b: A(0) }, T { source: A(1), _b: A(1), arg: A(0), b: A(0) }, T { source: A(0), _b: A(0), arg: A(1), b: A(7) }, T { source: A(0), _b: A(7), arg: A(0), b: A(7) }, T { source: A(0), _b: A(7), arg: A(7), b: A(1) }, T { source: A(1), _b: A(0), arg: A(7), b: A(1) }, T { source: A(1), _b: A(7), arg: A(1), b: A(7) }, T { source: A(7), _b: A(0), arg: A(1), b: A(1) }, T { source: A(1), _b: A(1), arg: A(1), b: A(0) }, T { source: A(7), _b: A(1), arg: A(1), b: A(1) }, T { source: A(7), _b: A(1), arg: A(0), b: A(7) }, T { source: A(0), _b: A(0), arg: A(1), b: A(1) }, T { source: A(1), _b: A(1), arg: A(0), b: A(7) }, T { source: A(7), _b: A(7), arg: A(1), b: A(1) }, T { source: A(0), _b: A(0), arg: A(7), b: A(7) }] }
+pub fn show(x: &T) -> String { #[allow(unused_variables)] match x { T { source: p0, _b: p1, arg: p2, b: p3 } => format!("T({},{},{},{})", sv(p0), sv(p1), sv(p2), sv(p3)) } }
+pub fn o_disc(x: &T) -> i128 { match x { T { source: _, _b: _, arg: _, b: _ } => 0 } }
+pub fn o_cmp(a: &T, b: &T) -> Ordering { match (a, b) { (T { source: a0, _b: a1, arg: a2, b: a3 }, T { source: b0, _b: b1, arg: b2, b: b3 }) => { let c = ::core::cmp::Ord::cmp(a3, b3); if c != Ordering::Equal { return c; } let c = ::core::cmp::Ord::cmp(a1, b1); if c != Ordering::Equal { return c; } let c = m_cmp(a0, b0); if c != Ordering::Equal { return c; } let c = ::core::cmp::Ord::cmp(a2, b2); if c != Ordering::Equal { return c; } Ordering::Equal } } }
 pub fn run(out: &mut Out) { let vs = values(); for (i, a) in vs.iter().enumerate() { for (j, b) in vs.iter().enumerate() { let e = o_cmp(a, b); let g = ::core::cmp::Ord::cmp(a, b); out.check(g == e, "ord_10", "cmp", || format!("cmp({}, {}) = {:?} expected {:?}", show(a), show(b), g, e)); let g2 = ::core::cmp::PartialOrd::partial_cmp(a, b); out.check(g2 == Some(e), "ord_10", "partial_is_some_cmp", || format!("partial_cmp({}, {}) = {:?} expected Some({:?})", show(a), show(b), g2, e)); } } }
